@@ -25,7 +25,8 @@ RULE = ('state = (object from the menu, file system history before the save); tr
         'depth <= 2 (quick: <= 1) of the C10 / C11 operation searches, descriptor-type variants (int, float, str, '
         'non-ASCII str, list of str, ndarray, matrix-valued descriptor, absent measure, NaN / inf values), the '
         'model classes, Results of eval_fixed / eval_bootstrap_rdm / crossval. One evaluation = one round trip '
-        'judged field by field; distinct = (object key, file type, target, history, overwrite).')
+        'judged field by field; distinct = (object key, file type, target, history, overwrite).'
+        ' Also: save A -> load -> replace by B -> load on one path, a loaded object edited in place then loaded again, two objects through one open pickle stream.')
 ASSUMPTIONS = ['equality is field-wise: arrays bit-identical (NaN == NaN), same descriptor keys, element-wise equal '
                'descriptor values compared as python values (containers may change between list and ndarray)',
                'scratch files live in a private temporary directory removed after the shard']
